@@ -21,7 +21,7 @@ TIERS = {
     "quick": {"targets": 320, "runs": 400, "ref_seeds": [0, 1, 20260924, 4242], "fresh_checks": 6, "redo": 8, "min_budget": 24,
               "chunk": 12, "budget_s": 420, "torchlib": False},
     "thorough": {"targets": 2600, "runs": 12000, "ref_seeds": [0, 1, 2, 3, 7, 1234567, 20260924, 4294967295], "fresh_checks": 40,
-                 "redo": 250, "min_budget": 60, "chunk": 25, "budget_s": 3300, "torchlib": True, "per_family": 10, "external_families": 23, "composed_models": 60},
+                 "redo": 250, "min_budget": 60, "chunk": 25, "budget_s": 3300, "torchlib": True, "per_family": 10, "external_families": 23, "composed_models": 60, "op_families": 120},
 }
 REF_PRE_SKEW = [0, 3, 5, 1, 2, 7, 11, 13]   # pre-import heap skew of the i-th reference environment
 PRE_SKEWS = [0, 0, 1, 2, 3, 5, 7, 11, 13, 101]
@@ -118,6 +118,16 @@ def gen_targets(seed: int, tier: dict, pools) -> list[dict]:
         n_mem = max(per_fam, genmodels.members_per_batch(gf, per_fam, cap=tier.get("variant_cap", 9)))
         gen_slots += [gf] * n_mem
         gen_member += list(range(n_mem))
+    # operator families from the onnx backend node tests: a fully lifted (constant-foldable) single-node model and
+    # variants differing in one attribute value, through the folding entry points
+    for i in range(tier.get("op_families", 8)):
+        r = rng.sub("opfam", i)
+        members = pools.backend_attr_family(r)
+        for m in members or []:
+            fam = m.pop("family")
+            for kind, params in (("optimize", {"api": "fold_pass"}), ("optimize", {"api": r.choice(["ir", "proto"])}),
+                                 ("optimize", {"api": "fold"})):
+                add(with_id({"kind": kind, "model": m, "family": fam, **copy.deepcopy(params)}))
     # composed models: 2-3 members of opset-20 families side by side in one graph (several matches of one rule, or of
     # different rules, in one traversal; several outputs; duplicated initializers)
     compose_fams = [f for f in gen_fams if f not in ("rms_norm", "layer_norm", "gelu", "fold_chain")]
@@ -138,7 +148,7 @@ def gen_targets(seed: int, tier: dict, pools) -> list[dict]:
     # location, different base_dir
     ext_fams = list(gen_fams)
     rng.sub("extfams").shuffle(ext_fams)
-    for gf in ext_fams[:tier.get("external_families", 6)]:
+    for gf in ext_fams[:tier.get("external_families", 24)]:
         r = rng.sub("ext", gf)
         fam_name, text = genmodels.gen_model(r.sub("gen"), gf, member=0, offset=rng.sub("variant-offset", gf).below(64))
         for present in (True, False):
@@ -146,7 +156,8 @@ def gen_targets(seed: int, tier: dict, pools) -> list[dict]:
             cfgs = [("rewrite", {"rules": FAMILY_AFFINITY.get(fam_name, "default_set"), "api": "apply"}),
                     ("rewrite", {"rules": "default", "api": "pass"}), ("optimize", {"api": "fold_pass"})]
             for kind, params in cfgs:
-                add(with_id({"kind": kind, "model": m, "family": fam_name, **copy.deepcopy(params)}))
+                # one family of their own: what these models share is the relative location of their data, not a rule
+                add(with_id({"kind": kind, "model": m, "family": "gen:external", **copy.deepcopy(params)}))
     # the version converter's own test models are the ones on which adapters replace nodes
     vc_texts = [(f, t) for f, t in pools.texts if "version_converter" in f]
     rng.sub("vcorder").shuffle(vc_texts)
@@ -240,7 +251,9 @@ def gen_runs(seed: int, tier: dict, targets: list[dict], repo: str, failing: set
     fams = sorted(k for k, v in by_family.items() if k and len(v) >= 2)
     objs = sorted(k for k, v in by_obj.items() if len(v) >= 3 and k != "translate")
     kinds_all = [k for k in ("translate", "optimize", "rewrite", "convert") if by_kind[k]]
-    gfams = [f for f in fams if f.startswith("gen:")]
+    gfams = [f for f in fams if f.startswith(("gen:", "op:"))]
+    if "gen:external" in gfams:
+        gfams += ["gen:external"] * 2   # three turns in the rotation: its template needs both halves to be relevant
     custom_scripts = [t for t in by_kind["translate"] if "CUSTOM = Opset(" in t.get("src", "")]
     stateful = [k for k in objs if any(a in k for a in ('"fold_pass"', '"pass"', '"apply"'))]
     for r in range(tier["runs"]):
@@ -270,7 +283,15 @@ def gen_runs(seed: int, tier: dict, targets: list[dict], repo: str, failing: set
         if r % 5 in (0, 4) and gfams:
             fam = gfams[(2 * (r // 5) + (r % 5) // 4) % len(gfams)]
             pool = [t for t in by_family[fam] if _rule_bearing(t)]
-            if len(pool) >= 2:
+            if fam == "gen:external" and len(pool) >= 2:
+                # models loaded without their data first, then models whose data is there (same relative location)
+                template, env["template"] = "missing_then_present", "missing_then_present"
+                missing = [t for t in pool if not t["model"].get("external", {}).get("present", True) and t["kind"] == "rewrite"]
+                present = [t for t in pool if t["model"].get("external", {}).get("present", True) and t["kind"] == "rewrite"]
+                k = max(1, min(4, length // 2))
+                ops = [copy.deepcopy(t) for t in rng.sample(missing, min(k, len(missing)))]
+                ops += [copy.deepcopy(t) for t in rng.sample(present, min(max(1, length - len(ops)), len(present), 5))]
+            elif len(pool) >= 2:
                 template, env["template"] = "pairs_family", "pairs_family"
                 ops = _pair_run(rng, pool, failing, length, changing)
         elif r % 5 in (1, 3) and stateful:
